@@ -19,8 +19,8 @@ pub mod slice;
 
 pub mod prelude {
     pub use crate::iter::{
-        FromParallelIterator, IntoParallelIterator, IntoParallelRefIterator,
-        IntoParallelRefMutIterator,
+        FromParallelIterator, IndexedParallelIterator, IntoParallelIterator, IntoParallelRefIterator,
+        IntoParallelRefMutIterator, ParallelBridge, ParallelExtend, ParallelIterator,
     };
     pub use crate::slice::{ParallelSlice, ParallelSliceMut};
 }
@@ -75,3 +75,86 @@ impl<'scope> Scope<'scope> {
         body(self)
     }
 }
+
+/// `ThreadPoolBuilder` / `ThreadPool`: a pool is just a pool *size* here; `install` reports that
+/// size to the code it runs (schedule decisions still come from the installed controller).
+#[derive(Debug, Default)]
+pub struct ThreadPoolBuilder {
+    threads: usize,
+}
+
+#[derive(Debug)]
+pub struct ThreadPoolBuildError;
+
+impl std::fmt::Display for ThreadPoolBuildError {
+    fn fmt(&self, f: &mut std::fmt::Formatter<'_>) -> std::fmt::Result {
+        f.write_str("thread pool build error")
+    }
+}
+
+impl std::error::Error for ThreadPoolBuildError {}
+
+impl ThreadPoolBuilder {
+    pub fn new() -> Self {
+        ThreadPoolBuilder { threads: 0 }
+    }
+    pub fn num_threads(mut self, n: usize) -> Self {
+        self.threads = n;
+        self
+    }
+    pub fn build(self) -> Result<ThreadPool, ThreadPoolBuildError> {
+        Ok(ThreadPool { threads: self.threads })
+    }
+    pub fn build_global(self) -> Result<(), ThreadPoolBuildError> {
+        Ok(())
+    }
+}
+
+#[derive(Debug)]
+pub struct ThreadPool {
+    threads: usize,
+}
+
+impl ThreadPool {
+    pub fn install<OP, R>(&self, op: OP) -> R
+    where
+        OP: FnOnce() -> R,
+    {
+        let old = sim::with(|c| {
+            let old = c.threads;
+            if self.threads > 0 {
+                c.threads = self.threads;
+            }
+            old
+        });
+        let r = op();
+        sim::with(|c| c.threads = old);
+        r
+    }
+    pub fn current_num_threads(&self) -> usize {
+        if self.threads > 0 {
+            self.threads
+        } else {
+            sim::threads()
+        }
+    }
+    pub fn join<A, B, RA, RB>(&self, a: A, b: B) -> (RA, RB)
+    where
+        A: FnOnce() -> RA,
+        B: FnOnce() -> RB,
+    {
+        self.install(|| join(a, b))
+    }
+}
+
+pub fn current_thread_index() -> Option<usize> {
+    Some(0)
+}
+
+/// `rayon::spawn` runs the closure inline at a task boundary.
+pub fn spawn<F: FnOnce()>(f: F) {
+    sim::task_boundary();
+    f()
+}
+
+pub mod slice_ext {}
